@@ -292,6 +292,28 @@ func scParams(k kindT) func(x *vs.Exec) {
 			b.CloseProxy("blk")
 			w.Quiesce()
 		}
+		if k.name == "tcpmux" {
+			// the CONNECT credentials are endpoint parameters too: one group, one user name, one password
+			cred := func(name, user, pw string) *msg.NewProxy {
+				return &msg.NewProxy{ProxyName: name, ProxyType: "tcpmux", Multiplexer: "httpconnect", Group: "GP", GroupKey: "k", CustomDomains: []string{"pw.example.com"}, HTTPUser: user, HTTPPwd: pw}
+			}
+			if r := a.NewProxy(cred("pw1", "alice", "pw")); r == nil || r.Error != "" {
+				vs.Fail("setup: protected group refused: %+v", r)
+			}
+			w.Quiesce()
+			before3 := w.Dump()
+			for i, c := range [][2]string{{"alice", "other-pw"}, {"bob", "pw"}, {"", ""}} {
+				if r := b.NewProxy(cred(fmt.Sprintf("pw-bad%d", i), c[0], c[1])); r == nil || r.Error == "" {
+					vs.Fail("tcpmux group protected by alice:pw admitted a member announcing credentials %q:%q", c[0], c[1])
+				}
+			}
+			w.Quiesce()
+			if d := w.Dump(); d != before3 {
+				vs.Fail("refused joins (credentials) changed the server state:\n%s--- before:\n%s", d, before3)
+			}
+			a.CloseProxy("pw1")
+			w.Quiesce()
+		}
 		if who, e := k.probe(w, ra, "10.0.0.1:1111"); e != "" || who != "a/g1" {
 			vs.Fail("after refused joins the member no longer serves: who=%q err=%s", who, e)
 		}
